@@ -116,7 +116,7 @@ func init() {
 	mutant("new-panic", "explicit-panics", "serverConn.go", "func (sc *serverConn) writePing() {", "func (sc *serverConn) must(ok bool) {\n	if !ok {\n		panic(\"invariant\")\n	}\n}\n\nfunc (sc *serverConn) writePing() {")
 	mutant("readloop-no-recover", "goroutine-roots", "conn.go", "	defer func() {\n		err := recover()\n		if err == nil {\n			return\n		}\n", "	defer func() {\n		var err interface{}\n		if err == nil {\n			return\n		}\n")
 	mutant("weakened-length-guard", "bounds-residual", "headers.go", "if len(payload) < 5 { // 4 (stream) + 1 (weight)", "if len(payload) < 4 { // 4 (stream) + 1 (weight)")
-	mutant("enc-resized-on-read-loop-again", "access-discipline", "conn.go", "	atomic.StoreUint32(&c.encTableSize, st.HeaderTableSize())\n", "	atomic.StoreUint32(&c.encTableSize, st.HeaderTableSize())\n	c.enc.SetMaxTableSize(st.HeaderTableSize())\n")
+	mutant("enc-resized-on-read-loop-again", "access-discipline", "conn.go", "	atomic.StoreUint32(&c.encTableSize, c.serverS.HeaderTableSize())\n", "	atomic.StoreUint32(&c.encTableSize, c.serverS.HeaderTableSize())\n	c.enc.SetMaxTableSize(c.serverS.HeaderTableSize())\n")
 	mutant("window-read-unlocked", "access-discipline", "conn.go", "func (c *Conn) pendingIDs() []uint32 {\n	c.sendLck.Lock()\n	defer c.sendLck.Unlock()\n", "func (c *Conn) pendingIDs() []uint32 {\n")
 	mutant("atomic-field-plain-store", "access-discipline", "conn.go", "			atomic.StoreUint32(&c.goAway, 1)", "			c.goAway = 1")
 	mutant("lastid-from-read-loop", "access-discipline", "serverConn.go", "					sc.writeGoAway(0, ProtocolError, \"extension frame inside a header block\")", "					sc.writeGoAway(sc.lastID, ProtocolError, \"extension frame inside a header block\")")
@@ -225,7 +225,7 @@ func init() {
 	mutant("one-byte-body-dropped", "request-mapping", "serverConn.go", "hasBody := ctx.Response.IsBodyStream() || len(ctx.Response.Body()) > 0", "hasBody := ctx.Response.IsBodyStream() || len(ctx.Response.Body()) > 1")
 	mutant("short-read-dropped", "request-mapping", "serverConn.go", "	n, err := strm.bodyStream.Read(buf)\n	if n > 0 {", "	n, err := strm.bodyStream.Read(buf)\n	if n > 1 {")
 	mutant("server-encoder-not-resized", "settings-applied", "serverConn.go", "	sc.enc.SetMaxTableSize(sc.clientS.HeaderTableSize())\n", "")
-	mutant("server-settings-not-kept", "settings-applied", "serverConn.go", "	st.CopyTo(&sc.clientS)\n	sc.enc.SetMaxTableSize(sc.clientS.HeaderTableSize())", "	sc.enc.SetMaxTableSize(st.HeaderTableSize())")
+	mutant("server-settings-not-kept", "settings-applied", "serverConn.go", "	st.applyTo(&sc.clientS)\n	sc.enc.SetMaxTableSize(sc.clientS.HeaderTableSize())", "	sc.enc.SetMaxTableSize(st.HeaderTableSize())")
 	mutant("connection-header-kept", "settings-applied", "serverConn.go", "	res.Header.Del(\"Connection\")\n", "")
 }
 
@@ -261,10 +261,10 @@ func init() {
 	mutant("settings-id-low-octet", "settings-codec-table", "settings.go", "key = uint16(b[0])<<8 | uint16(b[1])", "key = uint16(b[0])<<8 | uint16(b[2])")
 	mutant("settings-value-low-octet", "settings-codec-table", "settings.go", "uint32(b[4])<<8 | uint32(b[5])", "uint32(b[4])<<8 | uint32(b[4])")
 	mutant("settings-last-entry-skipped", "settings-codec-table", "settings.go", "	for i <= n {", "	for i < n {")
-	mutant("settings-push-literal", "settings-codec-table", "settings.go", "			0, 0, 0, 1,", "			0, 0, 1, 0,")
+	mutant("settings-push-literal", "settings-codec-table", "settings.go", "		0, 0, 0, push,", "		0, 0, push, 0,")
 	mutant("settings-push-rejects-all", "settings-validate", "settings.go", "if value != 0 && value != 1 {", "if value != 0 || value != 1 {")
 	mutant("settings-framesize-accepts-all", "settings-validate", "settings.go", "if value < 1<<14 || value > 1<<24-1 {", "if value < 1<<14 && value > 1<<24-1 {")
-	mutant("settings-table-size-inverted", "settings-encode-defaults", "settings.go", "	if st.tableSize != 0 {", "	if st.tableSize == 0 {")
+	mutant("settings-table-size-inverted", "settings-encode-defaults", "settings.go", "	st.rawSettings = append(st.rawSettings,\n		byte(HeaderTableSize>>8), byte(HeaderTableSize),\n		byte(st.tableSize>>24), byte(st.tableSize>>16),\n		byte(st.tableSize>>8), byte(st.tableSize),\n	)\n", "	if st.tableSize == 0 {\n		st.rawSettings = append(st.rawSettings,\n			byte(HeaderTableSize>>8), byte(HeaderTableSize),\n			byte(st.tableSize>>24), byte(st.tableSize>>16),\n			byte(st.tableSize>>8), byte(st.tableSize),\n		)\n	}\n")
 }
 
 // Variants for the building-block rules (rules_hygiene.go), reset values and copy completeness.
@@ -411,7 +411,7 @@ func init() {
 	mutant("client-regular-not-marked", "client-response-shape", "conn.go", "		c.block.regularSeen = true\n", "		c.block.regularSeen = false\n")
 	mutant("client-fields-dropped", "client-response-shape", "conn.go", "			res.Header.AddBytesKV(hf.KeyBytes(), hf.ValueBytes())\n", "")
 	mutant("client-initial-window-not-applied", "client-response-shape", "conn.go", "		c.applyInitialWindow(int32(st.MaxWindowSize()))\n", "")
-	mutant("client-settings-not-kept", "client-response-shape", "conn.go", "func (c *Conn) handleSettings(st *Settings) {\n	st.CopyTo(&c.serverS)\n", "func (c *Conn) handleSettings(st *Settings) {\n")
+	mutant("client-settings-not-kept", "client-response-shape", "conn.go", "	st.applyTo(&c.serverS)\n\n	atomic.StoreUint32(&c.maxStreams", "	atomic.StoreUint32(&c.maxStreams")
 }
 
 func init() {
@@ -680,4 +680,17 @@ func init() {
 	mutant("client-first-frame-keeps-end-headers", "header-block-emitters", "conn.go", "	h.SetHeaders(block[:step])\n	h.SetEndHeaders(false)", "	h.SetHeaders(block[:step])\n	h.SetEndHeaders(true)")
 	mutant("client-bound-ignores-the-servers-setting", "header-block-emitters", "conn.go", "func (c *Conn) writeHeaderBlock(fr *FrameHeader, h *Headers) error {\n	step := int(atomic.LoadUint32(&c.maxFrameSize))", "func (c *Conn) writeHeaderBlock(fr *FrameHeader, h *Headers) error {\n	step := int(maxFrameSize)")
 	mutant("client-header-block-written-outside-the-lock", "header-block-emitters", "conn.go", "	c.bwLck.Lock()\n\n	err := c.writeHeaderBlock(fr, h)\n	if err == nil {\n		err = c.bw.Flush()\n	}\n\n	c.bwLck.Unlock()", "	err := c.writeHeaderBlock(fr, h)\n\n	c.bwLck.Lock()\n\n	if err == nil {\n		err = c.bw.Flush()\n	}\n\n	c.bwLck.Unlock()")
+}
+
+func init() {
+	mutant("settings-record-overwritten-wholesale-server", "settings-presence-guard", "serverConn.go", "	st.applyTo(&sc.clientS)", "	st.CopyTo(&sc.clientS)")
+	mutant("settings-record-overwritten-wholesale-client", "settings-presence-guard", "conn.go", "	st.applyTo(&c.serverS)", "	st.CopyTo(&c.serverS)")
+	mutant("settings-merge-crosses-two-parameters", "settings-presence-guard", "settings.go", "	if st.has(MaxConcurrentStreams) {\n		dst.maxStreams = st.maxStreams", "	if st.has(MaxWindowSize) {\n		dst.maxStreams = st.maxStreams")
+	mutant("settings-merge-applies-absent-table-size", "settings-presence-guard", "settings.go", "	if st.has(HeaderTableSize) {\n		dst.tableSize = st.tableSize\n	}", "	dst.tableSize = st.tableSize")
+	mutant("settings-presence-bit-off-by-one", "settings-presence-guard", "settings.go", "	return st.present&(1<<id) != 0", "	return st.present&(1<<(id-1)) != 0")
+	mutant("settings-presence-only-for-window", "settings-presence-guard", "settings.go", "		if key >= HeaderTableSize && key <= MaxHeaderListSize {\n			st.present |= 1 << key", "		if key == MaxWindowSize {\n			st.present |= 1 << key")
+	mutant("settings-presence-survives-the-pool", "settings-presence-guard", "settings.go", "	st.hasWindowSize = false\n	st.present = 0\n}", "	st.hasWindowSize = false\n}")
+	mutant("client-encoder-size-from-the-bare-frame", "settings-presence-guard", "conn.go", "	atomic.StoreUint32(&c.encTableSize, c.serverS.HeaderTableSize())", "	atomic.StoreUint32(&c.encTableSize, st.HeaderTableSize())")
+	mutant("table-size-zero-left-out-again", "settings-encode-defaults", "settings.go", "	st.rawSettings = append(st.rawSettings,\n		byte(HeaderTableSize>>8), byte(HeaderTableSize),\n		byte(st.tableSize>>24), byte(st.tableSize>>16),\n		byte(st.tableSize>>8), byte(st.tableSize),\n	)\n", "	if st.tableSize != 0 {\n		st.rawSettings = append(st.rawSettings,\n			byte(HeaderTableSize>>8), byte(HeaderTableSize),\n			byte(st.tableSize>>24), byte(st.tableSize>>16),\n			byte(st.tableSize>>8), byte(st.tableSize),\n		)\n	}\n")
+	mutant("push-octet-set-when-disabled", "settings-codec-table", "settings.go", "	var push byte\n	if st.enablePush {\n		push = 1\n	}", "	var push byte\n	if !st.enablePush {\n		push = 1\n	}")
 }
